@@ -115,7 +115,11 @@ func (p *Path) block(ready func() bool, what string) {
 }
 
 // yield optionally lets other runnable tasks go first (forking).
-func (p *Path) yield() bool {
+func (p *Path) yield() bool { return p.yieldWith(nil) }
+
+// yieldWith is yield with a hook that runs when a switch was chosen, before
+// control moves to the other task.
+func (p *Path) yieldWith(onSwitch func()) bool {
 	cur := p.cur
 	cands := p.runnable(cur)
 	if len(cands) == 0 {
@@ -124,6 +128,9 @@ func (p *Path) yield() bool {
 	i := p.choice(len(cands) + 1)
 	if i == 0 {
 		return false
+	}
+	if onSwitch != nil {
+		onSwitch()
 	}
 	cur.ready = nil
 	p.switchTo(cur, cands[i-1])
